@@ -429,6 +429,37 @@ example : UnclaimedFrom exP {} Device.init exHistoryX := by decide
 -- the vendor request itself IS claimed (by the first handler only)
 example : ¬ NoClaim exP (parseSetup [0x40, 0x20, 0, 0, 0, 0, 0, 0]) := by decide
 
+/-- additional handlers that obey the claim contract `P` and otherwise drive as much as they can (STALL, a data byte,
+both register strobes) in every cycle. -/
+def noisyExt (P : List (Setup → Bool)) (is : List CycIn) : List (List HOut) :=
+  is.map (fun i => P.map (fun p => { claim := p i.su, stall := true, txValid := true, txFirst := true, txPayload := 0xEE,
+                                     addressChanged := true, newAddress := 0x55, configChanged := true, newConfig := 0x77 }))
+
+theorem noisyExt_claims (P : List (Setup → Bool)) (is : List CycIn) : ∀ ix ∈ is.zip (noisyExt P is), ClaimsBy P ix.1 ix.2 := by
+  induction is with
+  | nil => intro ix hix; simp [noisyExt] at hix
+  | cons i is ih =>
+    intro ix hix
+    simp only [noisyExt, List.map_cons, List.zip_cons_cons, List.mem_cons] at hix
+    rcases hix with rfl | hix
+    · simp [ClaimsBy, Function.comp_def]
+    · exact ih ix hix
+
+def exGapsX : GapsS := { pre := [{}], mid := [{}], post := [{}], stream := [{}, { txReady := true }, { txReady := true }, {}] }
+def exHistoryXG : List (Stim × GapsS) := exHistoryX.map (fun x => (x, exGapsX))
+
+-- the hypotheses of `cycle_refines_event_streams_run_extra` for these handlers, and its first conclusion evaluated
+example : UnclaimedFrom exP {} Device.init (exHistoryXG.map (·.1)) := by decide +kernel
+example : FitsFromM {} Device.init exHistoryXG = true := by decide +kernel
+example : (noisyExt exP ((expandAllRM {} Device.init exHistoryXG).map (·.2))).length =
+    (expandAllRM {} Device.init exHistoryXG).length := by simp [noisyExt]
+example : runX (cfgOf {}) CtrlCyc.init (((expandAllRM {} Device.init exHistoryXG).map (·.2)).zip
+      (noisyExt exP ((expandAllRM {} Device.init exHistoryXG).map (·.2)))) =
+    run (cfgOf {}) CtrlCyc.init ((expandAllRM {} Device.init exHistoryXG).map (·.2)) := by decide +kernel
+-- (GET_STATUS is answered [0, 0]; the unsupported standard request is STALLed by the standard handler itself)
+example : busRespsM {} Device.init CtrlCyc.init exHistoryXG =
+    [.none, .hs PID_ACK, .data PID_DATA1 [0, 0], .none, .none, .hs PID_ACK, .hs PID_STALL] := by decide +kernel
+
 -- the multiplexer on concrete outputs: one claimant drives, two claimants / nobody -> the fallback's STALL while polled
 def exZlp : HOut := { claim := true, txValid := true, txLast := true }
 example : muxN [{}, exZlp, {}] { statusRequested := true } = exZlp := by decide
